@@ -4,6 +4,7 @@ package main
 // compare with the committed ledger and known findings, write evidence.
 
 import (
+	"crypto/sha1"
 	"go/ast"
 	"encoding/json"
 	"flag"
@@ -44,6 +45,39 @@ type Finding struct {
 
 var loopOrdRe = regexp.MustCompile(`^loop\d+:`)
 var findingRe = regexp.MustCompile(`^(finding|fixed):\s+property=(C\d+)\s+(?:commit=(\S+)\s+)?obligation=(\S+)\s+(?:witness=(\S+)\s+)?"(.*)"\s*$`)
+
+var loopKeyWordRe = regexp.MustCompile(`[A-Za-z][A-Za-z0-9]*`)
+
+// identsStillInFunc: does every identifier of a loop key (header text with blanks written as
+// underscores) still occur in the source of the function?
+func (w *World) identsStillInFunc(fkey, loopKey string) bool {
+	var fn *ssa.Function
+	for _, f := range w.findFuncs("") {
+		if funcKey(f) == fkey {
+			fn = f
+		}
+	}
+	if fn == nil || fn.Syntax() == nil {
+		return false
+	}
+	have := map[string]bool{}
+	ast.Inspect(fn.Syntax(), func(n ast.Node) bool {
+		if id, ok := n.(*ast.Ident); ok {
+			have[id.Name] = true
+		}
+		return true
+	})
+	for _, wd := range loopKeyWordRe.FindAllString(loopKey, -1) {
+		switch wd {
+		case "for", "range", "len", "nil", "true", "false":
+			continue
+		}
+		if !have[wd] {
+			return false
+		}
+	}
+	return true
+}
 
 func loadFindings(path string) ([]Finding, error) {
 	data, err := os.ReadFile(path)
@@ -280,6 +314,32 @@ func (w *World) runPropertySkip(prop string, tmo int, dir string, only map[strin
 		}
 	}
 	w.solveAll(main, SolveOpts{Timeout: tmo, Dir: dir, Parallel: 16, CrossCheck: false, StopAfter: w.stopAfter})
+	// second chance: a claimed obligation that ran into the time limit (no answer, no counter-model)
+	// may only be the victim of a slow or busy machine.  If there are few of them they are solved again,
+	// two at a time, with three times the limit, before anything is reported.
+	if only != nil {
+		var again []*Obl
+		for _, o := range main {
+			if (o.Status == "timeout" || o.Status == "unknown") && o.Kind != "vacuity" {
+				again = append(again, o)
+			}
+		}
+		if len(again) > 0 && len(again) <= 6 {
+			for _, o := range again {
+				if o.Text != "" {
+					if data, err := os.ReadFile(o.Text); err == nil {
+						sum := sha1.Sum(data)
+						solveCache.Delete(fmt.Sprintf("%x", sum[:8]))
+					}
+				}
+				o.Status, o.Solver = "", ""
+			}
+			w.solveAll(again, SolveOpts{Timeout: 3 * tmo, Dir: dir, Parallel: 2})
+			for _, o := range again {
+				out.notes = append(out.notes, fmt.Sprintf("  second chance (limit %ds): %s -> %s", 3*tmo, o.Name, o.Status))
+			}
+		}
+	}
 	if len(mid) > 0 {
 		w.solveAll(mid, SolveOpts{Timeout: w.midTmo, Dir: dir, Parallel: 16})
 	}
@@ -514,6 +574,12 @@ func cmdCheck(args []string) {
 				discharged++
 			} else if r.Status == "not-attempted" {
 				notAttempted++
+			} else if r.Kind == "vacuity" && r.Status != "sat" {
+				// a vacuity guard asks the solver for a model; only the answer "there is none" (contradictory
+				// assumptions, no reachable return) is a finding -- running out of time looking for one is not
+				fmt.Printf("NOTE vacuity guard not decided this time (%s): %s\n", r.Status, n)
+				undecided = append(undecided, n)
+				claimed--
 			} else if why, isStale := ro.stale[strings.SplitN(n, "#", 2)[0]]; isStale {
 				// the function's contract refers to a name that no longer exists (a renamed local or
 				// parameter): its clauses cannot be stated, so what depended on them is undecided, not refuted
@@ -557,7 +623,18 @@ func cmdCheck(args []string) {
 		if _, ok := ro.results[n]; !ok {
 			parts := strings.SplitN(n, "#", 3)
 			stable := len(parts) == 3 && funcExists[parts[0]] && !strings.Contains(parts[2], "@") &&
-				(parts[1] == "ensures" || parts[1] == "lemma" || parts[1] == "callsite" || parts[1] == "loop-exit" || strings.HasPrefix(parts[1], "invariant-"))
+				(parts[1] == "ensures" || parts[1] == "lemma" || parts[1] == "callsite" || parts[1] == "loop-exit" || parts[1] == "decreases" || strings.HasPrefix(parts[1], "invariant-"))
+			if len(parts) == 3 && funcExists[parts[0]] && strings.HasPrefix(parts[2], "loop@") &&
+				(parts[1] == "loop-exit" || parts[1] == "decreases" || strings.HasPrefix(parts[1], "invariant-")) {
+				// a loop clause named by the loop's header text: if every identifier of that text still
+				// occurs in the function, the loop itself was removed or rebuilt (the clause can no
+				// longer be stated: a proved obligation lost); if one is gone, a rename is more likely
+				key := strings.TrimPrefix(parts[2], "loop@")
+				if i := strings.LastIndex(key, ":"); i >= 0 {
+					key = key[:i]
+				}
+				stable = w.identsStillInFunc(parts[0], key)
+			}
 			if stable && loopOrdRe.MatchString(parts[2]) {
 				stable = false // named by a loop ordinal: shifts when another loop is added
 			}
